@@ -2,7 +2,7 @@
 # tools/run_tier.sh <tier> [CNN ...]  — runs the registered checks of a tier one after another and
 # prints one SUMMARY/VIOLATION digest per check (used with `vp run` for the thorough tiers).
 tier=$1; shift
-cd /verif 2>/dev/null || cd "$(dirname "$0")/.."
+cd "$(dirname "$0")/.."
 ids=${@:-$(ls checks.d | sed 's/.json//')}
 for id in $ids; do
   echo "=== $id $(date -u +%H:%M:%S)"
